@@ -5,6 +5,7 @@ import (
 	"fmt"
 	"os"
 	"strconv"
+	"strings"
 	"testing"
 
 	"pgregory.net/rapid"
@@ -25,6 +26,7 @@ type c04Case struct {
 	DstCap  int    `json:"dst_cap"`
 	V       []byte `json:"v"` // dec: the octets to decode
 	Mutated string `json:"mutated"`
+	Rep     int    `json:"rep,omitempty"` // len: HuffmanEncodeLength of S repeated Rep times
 }
 
 var c04LongSyms, c04MidSyms []byte
@@ -254,6 +256,18 @@ func c04HasLong(s []byte) bool {
 }
 
 func c04Prop(c c04Case, r *vp.Rec) error {
+	if c.Dir == "len" {
+		// "for every byte string": also for strings whose encoding is longer than 2^32
+		// bits; only the length is computed, nothing is encoded
+		if c.Rep < 0 || len(c.S) == 0 || uint64(len(c.S))*uint64(c.Rep) > 1<<29 {
+			return fmt.Errorf("harness: malformed len case")
+		}
+		bits := uint64(c02HuffBits(c.S)) * uint64(c.Rep)
+		if got, want := HuffmanEncodeLength(strings.Repeat(string(c.S), c.Rep)), (bits+7)/8; got != want {
+			return fmt.Errorf("HuffmanEncodeLength(%q repeated %d times) = %d, the encoding has %d bits = %d octets", c.S, c.Rep, got, bits, want)
+		}
+		return nil
+	}
 	if c.Dir == "enc" {
 		r.Class("enc")
 		r.Classf("enc:padding-bits=%d", (8-c02HuffBits(c.S)%8)%8)
@@ -334,6 +348,16 @@ func TestVP_C04_enum(t *testing.T) {
 				}
 				e.Eval(nt || c02HuffTab[b].n >= 20, "enum:enc-2-symbols", nil)
 			}
+		}
+		for _, lc := range []c04Case{{Dir: "len", S: []byte("\n"), Rep: 143165577}, {Dir: "len", S: []byte("\n\x16"), Rep: 71582789}, {Dir: "len", S: []byte("a\r"), Rep: 1 << 27}} {
+			if shard != 0 || e.Failed() {
+				break
+			}
+			if err := c04Prop(lc, nil); err != nil {
+				e.Fail(lc, err)
+				return
+			}
+			e.Eval(true, "enum:length-of-a-string-with-more-than-2^32-code-bits", func() any { return lc })
 		}
 		dec := func(v []byte, class string) bool {
 			acc, err := c04Decode(v)
